@@ -90,6 +90,17 @@ def gen(rng, scenario, tier):
         tags = ["list", "nd1", "nd2", "series", "df"]
         for x in xs:
             ev.append([x, rng.choice(tags), np_seed(rng)])
+    # integer-typed inputs: some observations / batches are made integral and handed over as Python ints / int64 arrays
+    # (the all-ndarray run passes the same values as floats); the first input is integral more often
+    if k in ("x", "xx", "batch"):
+        for j, e in enumerate(ev):
+            if rng.random() < (0.3 if j == 0 else 0.12):
+                if k == "batch":
+                    e[0] = [[float(round(v)) for v in row] for row in e[0]]
+                    e[1] = rng.choice(["nd_int", "lol_int"])
+                else:
+                    e[0] = [float(round(v)) for v in e[0]]
+                    e[1] = rng.choice(["list_int", "nd2_int"] + (["scalar_int"] if k == "x" else []))
     case = {"det": name, "cfg": cfg, "events": ev}
     if name in ("PCACD", "LinearFourRates"):
         L = len(ev)
@@ -103,6 +114,10 @@ def make_x(k, values, tag):
     """Build the container for one valid input. stream: values = one row; batch: list of rows."""
     if k == "batch":
         arr = np.array(values, dtype=float)
+        if tag == "nd_int":
+            return arr.astype("int64")
+        if tag == "lol_int":
+            return [[int(v) for v in r] for r in values]
         if tag == "lol":
             return [list(r) for r in values]
         if tag == "nd":
@@ -118,6 +133,12 @@ def make_x(k, values, tag):
             return np.array(flat, dtype=float)
         return pd.Series(flat, dtype=float)
     row = list(values)
+    if tag == "scalar_int":
+        return int(row[0])
+    if tag == "list_int":
+        return [int(v) for v in row]
+    if tag == "nd2_int":
+        return np.array([row]).astype("int64")
     if tag == "scalar":
         return row[0]
     if tag == "list":
